@@ -291,6 +291,17 @@ def walk (h : Host) (cfg : Cfg) : Nat → Call → Plan → Res Plan
 def scan (h : Host) (cfg : Cfg) (fuel : Nat) : Res Plan :=
   walk h cfg fuel (.mount [] cfg.ctrOut (limitFollowSymlinks + 1) true) {}
 
+/-! ## an explicit bound on the nesting of calls (proved sufficient in Proofs/C17_Term.lean) -/
+
+/-- the longest path of the host tree -/
+def depthBound (h : Host) : Nat := (h.map (·.1.length)).foldr max 0
+def cS (h : Host) : Nat := h.length + 2
+def cL (h : Host) : Nat := (depthBound h + 1) * cS h + 2
+def cB (cfg : Cfg) : Nat := cfg.mounts.length + 2
+def big (h : Host) (cfg : Cfg) (n : Nat) : Nat := n * cL h + (depthBound h + 1) * cS h + cB cfg + 1
+/-- fuel that suffices for the whole scan of a supported configuration -/
+def fuelBound (h : Host) (cfg : Cfg) : Nat := big h cfg (limitFollowSymlinks + 1)
+
 /-! ## the rest of `Copy`: the plan applied to a collection filesystem -/
 
 inductive Ent where
@@ -381,8 +392,15 @@ def copy (h : Host) (cfg : Cfg) (fuel : Nat) : Res Tree :=
 def putBytes (h : Host) (p : Plan) : Nat :=
   (p.files.map fun f => (srcContent h f.2).length).sum
 
-/-- configurations the model (and the driver) does not run: a `tmp` mount other than the output
-directory, a writable collection mount, a mount above the output path -/
+/-- configurations the driver runs: the only `tmp` mount is the output directory, no writable
+collection mount (the others make the real code compute a host path from the wrong mount) -/
+def runnable (cfg : Cfg) : Bool :=
+  cfg.mounts.all fun e =>
+    (e.2.kind ≠ "tmp" || e.1 = cfg.ctrOut) && !(e.2.kind = "collection" && e.2.writable)
+
+/-- configurations for which termination is proved: `runnable`, and no mount above the output path
+(with one, `walkMountsBelow` re-enters the output directory with a fresh budget: finding F17c); its complement is: a `tmp` mount
+other than the output directory, a writable collection mount, a mount above the output path -/
 def supported (cfg : Cfg) : Bool :=
   cfg.mounts.all fun e =>
     (e.2.kind ≠ "tmp" || e.1 = cfg.ctrOut) &&
